@@ -65,7 +65,7 @@ fn cpu_of(core: &Core) -> Cpu {
 /// R1's machine cycles for the instructions the next step will execute (one instruction, or
 /// a block up to and including its terminator / the 0x4000 boundary), run on a copy-on-write
 /// overlay of the real bus.  Returns (cycles, final pc, instructions, wrote DIV, trustworthy).
-fn predict(core: &Core, block: bool) -> (u32, u16, u32, bool, bool) {
+fn predict(core: &Core, block: bool) -> (u32, u16, u32, bool, bool, bool) {
   let mut ov = Overlay { mem: &core.memory as *const MemoryAreas, writes: Vec::new(), olds: Vec::new() };
   let mut cpu = cpu_of(core);
   let start = cpu.pc;
@@ -88,7 +88,8 @@ fn predict(core: &Core, block: bool) -> (u32, u16, u32, bool, bool) {
     }
   }
   let wrote_div = ov.writes.iter().any(|(a, _)| *a == 0xFF04);
-  (cycles, cpu.pc, n, wrote_div, trust)
+  let wrote_dma = ov.writes.iter().any(|(a, _)| *a == 0xFF46);
+  (cycles, cpu.pc, n, wrote_div, trust, wrote_dma)
 }
 
 fn check_program(core: &mut Core, regime: Regime, name: &str, ctx: &mut Ctx) {
@@ -100,7 +101,8 @@ fn check_program(core: &mut Core, regime: Regime, name: &str, ctx: &mut Ctx) {
     let sp_before = { core.registers.sp } as u16;
     let halted = run_before != 0;
     let block = regime == Regime::BlockStepped || cfg!(feature = "jit");
-    let (want_cycles, want_pc, _n, wrote_div, trust) = if halted { (1, { core.registers.ip } as u16, 0, false, true) } else { predict(core, block) };
+    let (want_cycles, want_pc, _n, wrote_div, trust, wrote_dma) = if halted { (1, { core.registers.ip } as u16, 0, false, true, false) } else { predict(core, block) };
+    let dma0 = core.memory.verif_dma_state();
     let stepped = std::panic::catch_unwind(std::panic::AssertUnwindSafe(|| match regime {
       Regime::InstrStepped => core.update(),
       Regime::BlockStepped => progrun::step(core),
@@ -154,6 +156,28 @@ fn check_program(core: &mut Core, regime: Regime, name: &str, ctx: &mut Ctx) {
             .set("observed_div_clocks", J::u(dd))
             .set("observed_ppu_clocks", J::u(dp))
         });
+      }
+      // third device clock: an OAM DMA in flight copies one byte per machine cycle delivered
+      if let Some((_, off0)) = dma0 {
+        if !wrote_dma {
+          let exp_off = (off0 as u64 + want / 4).min(160);
+          let got_off = match core.memory.verif_dma_state() {
+            Some((_, o)) => o as u64,
+            None => 160,
+          };
+          ctx.count(7, 1);
+          if got_off != exp_off {
+            let key = format!("C09 regime={} clock=dma kind={}", regime_name(regime), if halted { "halted-step" } else if prev_dispatch { "after-dispatch" } else { "run-step" });
+            ctx.violation(&key, || {
+              J::obj()
+                .set("case", J::obj().set("program", J::s(name)).set("step", J::u(step)).set("regime", J::s(regime_name(regime))))
+                .set("dma_progress_before", J::u(off0 as u64))
+                .set("expected_progress_after", J::u(exp_off))
+                .set("observed_progress_after", J::u(got_off))
+                .set("expected_clocks", J::u(want))
+            });
+          }
+        }
       }
       ctx.count(2, 1);
     } else {
@@ -279,11 +303,13 @@ pub fn run_accounting(regime: Regime, workers: usize) -> PoolResult {
               crate::mem::memory_write_byte(mp, 0xFFFF, ie);
               crate::mem::memory_write_byte(mp, 0xFF0F, iflag);
               world::set_regs(core, 0x0100, 0, 0, 0xC100, *sp, *pc);
+              // an OAM DMA is in flight during both steps (third device clock)
+              crate::mem::memory_write_byte(mp, 0xFF46, 0xC1);
               core.interrupts_enabled = if *ime_on { InterruptState::Enabled } else { InterruptState::Disabled };
               core.run_state = if *halted { RunState::Halt } else { RunState::Run };
               let block = regime == Regime::BlockStepped || cfg!(feature = "jit");
               // step 1
-              let (c1, _, _, _, _) = if *halted { (1, 0, 0, false, true) } else { predict(core, block) };
+              let (c1, _, _, _, _, _) = if *halted { (1, 0, 0, false, true, false) } else { predict(core, block) };
               let (p0, d0) = (ppu_clock(core), div_clock(core));
               match regime {
                 Regime::InstrStepped => core.update(),
@@ -295,7 +321,7 @@ pub fn run_accounting(regime: Regime, workers: usize) -> PoolResult {
               let woke = pending != 0;
               // step 2
               let still_halted = *halted && !woke;
-              let (c2, _, _, _, _) = if still_halted { (1, 0, 0, false, true) } else { predict(core, block) };
+              let (c2, _, _, _, _, _) = if still_halted { (1, 0, 0, false, true, false) } else { predict(core, block) };
               match regime {
                 Regime::InstrStepped => core.update(),
                 Regime::BlockStepped => progrun::step(core),
@@ -316,6 +342,19 @@ pub fn run_accounting(regime: Regime, workers: usize) -> PoolResult {
                 _ => "ram",
               };
               ctx.class(((dispatched as u64) << 8) | ((*halted as u64) << 7) | ((woke as u64) << 6) | ((c2.min(15) as u64) << 2) | (got2.0 == want2) as u64);
+              let dma_got = match core.memory.verif_dma_state() {
+                Some((_, o)) => o as u64,
+                None => 160,
+              };
+              let dma_want = ((want1 + want2) / 4).min(160);
+              if dma_got != dma_want {
+                ctx.violation(&format!("C09 regime={} accounting=dma-progress sp={} {} {}", regime_name(regime), spc, if *halted { "halted" } else { "running" }, if dispatched { "dispatch" } else { "no-dispatch" }), || {
+                  J::obj()
+                    .set("case", J::obj().set("if", J::u(iflag as u64)).set("ie", J::u(ie as u64)).set("sp", J::s(format!("{:04X}", sp))).set("pc", J::s(format!("{:04X}", pc))).set("halted", J::Bool(*halted)).set("ime", J::Bool(*ime_on)).set("regime", J::s(regime_name(regime))))
+                    .set("expected_dma_bytes", J::u(dma_want))
+                    .set("observed_dma_bytes", J::u(dma_got))
+                });
+              }
               if got1.0 != want1 || got1.1 != want1 % 65536 || got2.0 != want2 || got2.1 != want2 % 65536 {
                 let which = if got1.0 != want1 || got1.1 != want1 % 65536 { "first-step" } else { "step-after-dispatch" };
                 ctx.violation(&format!("C09 regime={} accounting={} sp={} {}", regime_name(regime), which, spc, if dispatched { "dispatch" } else { "no-dispatch" }), || {
